@@ -22,12 +22,18 @@ instance (m : MappingRec) : Decidable (MappingOK m) := by unfold MappingOK; exac
 
 theorem mappingTable_ok : ∀ m ∈ mappingTable, MappingOK m := by decide +kernel
 
-/-- Per-font facts: the mapping id is valid, the character size is positive, the atlas has at least as
-many cells as the mapping has glyphs, and the atlas file has exactly the length `ImageRaw::new`
-demands for a 1-bpp image of the stated size (rows padded to whole bytes). -/
+/-- Per-font facts: the mapping id is valid, the character size is positive, the atlas has EXACTLY as
+many cells as the mapping lists characters (today all 292 fonts: 96, 160 or 192 glyphs in rows of 16),
+and the atlas file has exactly the length `ImageRaw::new` demands for a 1-bpp image of the stated size
+(rows padded to whole bytes).
+The property needs only `≤` (every designated cell inside the image: `builtin_glyph_drawable`); `=` is
+demanded because mapping string and atlas are independent artefacts and model and code read the same
+string: a range that loses one character (all later glyphs shift by one cell) or an atlas with a
+surplus row passes every other check. A future font whose last atlas row is only partly used would
+have to relax this to `cells - glyphs < glyphs per row`. -/
 def FontOK (r : FontRec) : Prop :=
   r.mapping < mappingTable.length ∧ 0 < r.cw ∧ 0 < r.ch ∧
-  glyphCount (mappingTable.getD r.mapping ⟨"", [], 0⟩) ≤ (r.imgW / r.cw) * (r.imgH / r.ch) ∧
+  glyphCount (mappingTable.getD r.mapping ⟨"", [], 0⟩) = (r.imgW / r.cw) * (r.imgH / r.ch) ∧
   r.rawLen = ((r.imgW + 7) / 8) * r.imgH
 instance (r : FontRec) : Decidable (FontOK r) := by unfold FontOK; exact inferInstance
 
@@ -62,7 +68,7 @@ theorem builtin_glyph_drawable (r : FontRec) (hr : r ∈ fontTable) (c : Nat) :
     show (builtinMapping r.mapping).index c < _
     rw [hbm]
     exact index_lt (mappingOfRec m) hrepl c
-  exact Nat.lt_of_lt_of_le hlt hcount
+  exact Nat.lt_of_lt_of_le hlt (Nat.le_of_eq hcount)
 
 end Font
 end EG
